@@ -79,9 +79,14 @@ func HarnessC03Commit() {
 	s := hxNewSrv([]string{"8BITMIME", "ENHANCEDSTATUSCODES"})
 	s.maxDev = svParam("maxdev", 2)
 	c := hxNewClient(s)
-	if err := c.DialWithContext(context.Background()); err != nil {
-		svReach("dial-failed")
-		return
+	// entry point: Dial + Send on the client's own connection, or DialAndSend
+	// (a connection private to the call)
+	viaDialAndSend := svPick("entry", 2) == 1
+	if !viaDialAndSend {
+		if err := c.DialWithContext(context.Background()); err != nil {
+			svReach("dial-failed")
+			return
+		}
 	}
 	svReach("dialled")
 	var msgs []*Msg
@@ -92,8 +97,12 @@ func HarnessC03Commit() {
 		}
 		msgs = append(msgs, hxTestMsg(i, nr, fails[i], EncodingQP))
 	}
-	err := c.Send(msgs...)
-	_ = err
+	var err error
+	if viaDialAndSend {
+		err = c.DialAndSend(msgs...)
+	} else {
+		err = c.Send(msgs...)
+	}
 	// every committed payload is the complete rendering of exactly one message
 	used := make([]int, nm)
 	for ci, cm := range s.commits {
